@@ -7,6 +7,9 @@
  *   th_skip ty=<wire type> b=x..      | st= pos= lvl= pend=  thrift_skip on a fresh decoder
  *   th_rd k=<kind> b=x..              | st= pos= r=..        one decoder primitive
  *   th_enc prog=<tokens>              | st= out=x.. lvl=     a program of encoder calls
+ *   th_wci bo=<int> p=<n,{nc,min,max,np}*> | st= out=x..     column index builder: create, add_page*, set_boundary_order, serialize
+ *   th_woi tr=<0|1> p=<n,{off,csz,fri,usz}*> | st= out=x..   offset index builder: create(tr), add_page*, serialize
+ *     (`min`/`max`: `-` = NULL pointer, `x..` = pointer + length, `x` = non-NULL pointer with length 0)
  * `exp` is the structure the bytes were made from: how=rt by carquet's own writer (the driver
  * normalises it to the serialised fields), how=fe by the independent encoder of
  * thrift_foreign.h (must come back exactly).  Token grammar: thrift_tokens.h. */
@@ -14,7 +17,22 @@
 #include "core/buffer.h"
 #include "core/arena.h"
 
-static long st_fm, st_ph, st_fe, st_mut, st_err, st_ok, st_unknown, st_long, st_deep;
+static long st_fm, st_ph, st_fe, st_mut, st_err, st_ok, st_unknown, st_long, st_deep, st_ci, st_oi;
+
+/* metadata/page_index.c exports its builders and serialisers but declares them in no header */
+typedef struct carquet_column_index_builder carquet_column_index_builder_t;
+typedef struct carquet_offset_index_builder carquet_offset_index_builder_t;
+carquet_column_index_builder_t* carquet_column_index_builder_create(carquet_physical_type_t type, int32_t type_length);
+void carquet_column_index_builder_destroy(carquet_column_index_builder_t* b);
+carquet_status_t carquet_column_index_add_page(carquet_column_index_builder_t* b, int64_t null_count, const void* mn,
+                                               int32_t mn_len, const void* mx, int32_t mx_len, bool is_null_page);
+void carquet_column_index_set_boundary_order(carquet_column_index_builder_t* b, int32_t order);
+carquet_status_t carquet_column_index_serialize(const carquet_column_index_builder_t* b, carquet_buffer_t* out);
+carquet_offset_index_builder_t* carquet_offset_index_builder_create(bool track_uncompressed);
+void carquet_offset_index_builder_destroy(carquet_offset_index_builder_t* b);
+carquet_status_t carquet_offset_index_add_page(carquet_offset_index_builder_t* b, int64_t offset, int32_t compressed_size,
+                                               int64_t first_row_index, int32_t uncompressed_size);
+carquet_status_t carquet_offset_index_serialize(const carquet_offset_index_builder_t* b, carquet_buffer_t* out);
 
 static uint8_t* exact_copy(const uint8_t* p, size_t n) { uint8_t* q = h_alloc(n); if (n) memcpy(q, p, n); return q; }
 
@@ -40,6 +58,92 @@ static uint8_t* do_wph(hctx* h, const parquet_page_header_t* p, size_t* n) {
     uint8_t* r = exact_copy(buf.data, buf.size); *n = buf.size;
     carquet_buffer_destroy(&buf);
     return r;
+}
+
+/* ---- page index serialisers: `p` is the token list "n,{..}*" (see the header comment) ---- */
+static char** split_tokens(const char* p, size_t* n) {
+    char* c = strdup(p); size_t cap = 16, k = 0; char** v = (char**)malloc(cap * sizeof *v);
+    for (char* t = c;; ) {
+        char* e = strchr(t, ',');
+        if (e) *e = 0;
+        if (k == cap) { cap *= 2; v = (char**)realloc(v, cap * sizeof *v); }
+        v[k++] = t;
+        if (!e) break;
+        t = e + 1;
+    }
+    *n = k; return v;      /* v[0] is the strdup'ed block */
+}
+static void do_wci(hctx* h, long long bo, const char* p) {
+    fprintf(h->out, "th_wci bo=%lld p=%s", bo, p); h_call(h);
+    size_t nt; char** t = split_tokens(p, &nt);
+    long long n = nt ? h_ll(t[0]) : 0;
+    carquet_column_index_builder_t* b = carquet_column_index_builder_create(CARQUET_PHYSICAL_BYTE_ARRAY, 0);
+    for (long long i = 0; b && i < n && 1 + 4 * (size_t)i + 3 < nt; i++) {
+        char** q = t + 1 + 4 * i;
+        size_t mnl = 0, mxl = 0; uint8_t *mn = NULL, *mx = NULL;      /* exact-size copies; NULL for "-" */
+        if (strcmp(q[1], "-")) { uint8_t* u = h_unhex(q[1], &mnl); mn = exact_copy(u, mnl); free(u); }
+        if (strcmp(q[2], "-")) { uint8_t* u = h_unhex(q[2], &mxl); mx = exact_copy(u, mxl); free(u); }
+        (void)carquet_column_index_add_page(b, (int64_t)h_ll(q[0]), mn, (int32_t)mnl, mx, (int32_t)mxl, h_ll(q[3]) != 0);
+        free(mn); free(mx);                                              /* the builder owns copies */
+    }
+    carquet_column_index_set_boundary_order(b, (int32_t)bo);
+    carquet_buffer_t buf; carquet_buffer_init(&buf);
+    carquet_status_t st = carquet_column_index_serialize(b, &buf);
+    fprintf(h->out, " | st=%d out=", (int)st); h_hex(h->out, buf.data, buf.size); fputc('\n', h->out);
+    h->n_lines++; st_ci++;
+    carquet_buffer_destroy(&buf);
+    carquet_column_index_builder_destroy(b);
+    free(t[0]); free(t);
+}
+static void do_woi(hctx* h, int tr, const char* p) {
+    fprintf(h->out, "th_woi tr=%d p=%s", tr, p); h_call(h);
+    size_t nt; char** t = split_tokens(p, &nt);
+    long long n = nt ? h_ll(t[0]) : 0;
+    carquet_offset_index_builder_t* b = carquet_offset_index_builder_create(tr != 0);
+    for (long long i = 0; b && i < n && 1 + 4 * (size_t)i + 3 < nt; i++) {
+        char** q = t + 1 + 4 * i;
+        (void)carquet_offset_index_add_page(b, (int64_t)h_ll(q[0]), (int32_t)h_ll(q[1]), (int64_t)h_ll(q[2]), (int32_t)h_ll(q[3]));
+    }
+    carquet_buffer_t buf; carquet_buffer_init(&buf);
+    carquet_status_t st = carquet_offset_index_serialize(b, &buf);
+    fprintf(h->out, " | st=%d out=", (int)st); h_hex(h->out, buf.data, buf.size); fputc('\n', h->out);
+    h->n_lines++; st_oi++;
+    carquet_buffer_destroy(&buf);
+    carquet_offset_index_builder_destroy(b);
+    free(t[0]); free(t);
+}
+/* generated page lists: 0, 1, 14, 15, 16, 17 (list-header switch), 33 (second builder growth) and random sizes */
+static void gen_page_index(hctx* h) {
+    static const int sizes[] = { 0, 1, 2, 14, 15, 16, 17, 33, 64 };
+    long rounds = h->thorough ? 400 : 60;
+    for (long r = 0; r < rounds; r++) {
+        int n = r < 9 ? sizes[r] : (int)h_below(h, 40);
+        char* s = NULL; size_t sn = 0; FILE* f = open_memstream(&s, &sn);
+        fprintf(f, "%d", n);
+        for (int i = 0; i < n; i++) {
+            fprintf(f, ",%lld,", (long long)g_i64(h));
+            for (int k = 0; k < 2; k++) {
+                int kind = (int)h_below(h, 8);
+                if (kind == 0) fputc('-', f);                        /* NULL pointer */
+                else if (kind == 1) fputc('x', f);                   /* non-NULL, length 0: stored as NULL */
+                else { uint8_t t[40]; size_t bn = 1 + h_below(h, kind == 2 ? 40 : 8); h_fill(h, t, bn, 0); h_hex(f, t, bn); }
+                fputc(',', f);
+            }
+            fprintf(f, "%d", (int)h_below(h, 2));
+        }
+        fclose(f);
+        static const long long bos[] = { 0, 1, 2, -1, 2147483647, -2147483647 - 1 };
+        do_wci(h, r % 5 == 0 ? bos[h_below(h, 6)] : (long long)h_below(h, 3), s);
+        free(s);
+        s = NULL; sn = 0; f = open_memstream(&s, &sn);
+        fprintf(f, "%d", n);
+        for (int i = 0; i < n; i++)
+            fprintf(f, ",%lld,%d,%lld,%d", (long long)g_i64(h), (int)g_i32(h), (long long)g_i64(h), (int)g_i32(h));
+        fclose(f);
+        do_woi(h, (int)(r % 2), s);
+        free(s);
+    }
+    fprintf(h->out, "#stat column_index_serialize %ld\n#stat offset_index_serialize %ld\n", st_ci, st_oi);
 }
 
 /* ---- parse ops; `exp` (may be NULL) is an already rendered token string ---- */
@@ -273,6 +377,24 @@ static void gen_prims(hctx* h) {
         memset(&b, 0, sizeof b); b.h = h; fe_varint(&b, cnts[i]); fb_put(&b, (uint8_t)(0x30 | et)); fb_put(&b, 1); fb_put(&b, 1); fb_put(&b, 1);
         do_rd(h, "mapb", b.p, b.n); do_skip(h, 11, b.p, b.n); free(b.p);
       } }
+    /* thrift_skip ignores the result of carquet_buffer_reader_skip: BYTE / DOUBLE / UUID elements and fields with fewer
+     * bytes left than their width are "skipped" without consuming and without error (the iterations the linear-time
+     * bound of C04_thrift_skip_linear has to pay for).  count = bytes left (largest accepted) and bytes left + 1 (refused). */
+    { static const int wt[] = { 3, 7, 13 }; static const int width[] = { 1, 8, 16 };
+      for (int k = 0; k < 3; k++) for (int have = 0; have <= 2 * width[k] + 1; have++) for (int over = 0; over <= 1; over++) {
+        int cnt = have + over;
+        fbuf b; memset(&b, 0, sizeof b); b.h = h;
+        if (cnt < 15) fb_put(&b, (uint8_t)((cnt << 4) | wt[k])); else { fb_put(&b, (uint8_t)(0xF0 | wt[k])); fe_varint(&b, (uint64_t)cnt); }
+        for (int j = 0; j < have; j++) fb_put(&b, (uint8_t)(j + 1));
+        do_skip(h, 9, b.p, b.n); do_skip(h, 10, b.p, b.n); free(b.p);
+        memset(&b, 0, sizeof b); b.h = h; fe_varint(&b, (uint64_t)(cnt ? cnt : 1)); fb_put(&b, (uint8_t)((wt[k] << 4) | wt[(k + 1 + over) % 3]));
+        for (int j = 0; j + 1 < have; j++) fb_put(&b, (uint8_t)(j + 1));
+        do_skip(h, 11, b.p, b.n); free(b.p);
+        memset(&b, 0, sizeof b); b.h = h; fb_put(&b, (uint8_t)(0x10 | wt[k]));
+        for (int j = 0; j < have && j < width[k] - 1 + over; j++) fb_put(&b, (uint8_t)(j + 1));
+        if (over) fb_put(&b, 0x00);
+        do_skip(h, 12, b.p, b.n); free(b.p);
+      } }
     /* skip: every wire type 0..15 on short random / truncated inputs */
     for (int ty = 0; ty < 16; ty++) for (int r = 0; r < (h->thorough ? 60 : 12); r++) {
         size_t n = h_below(h, 20); for (size_t j = 0; j < n; j++) buf[j] = (uint8_t)h_next(h);
@@ -396,6 +518,7 @@ static void gen_thrift(hctx* h) {
           limit_case(h, w, lim[w], lim[w], 1); limit_case(h, w, lim[w] + 1, lim[w] + 1, 1);
           limit_case(h, w, 3, 3, 1); limit_case(h, w, 5, 5, 0); limit_case(h, w, 5, 4, 0); limit_case(h, w, 0xFFFFFFFFu, 2, 1);
       } }
+    gen_page_index(h);
     /* nesting: around THRIFT_MAX_NESTING, then far beyond (an error, not a crash) */
     for (int kind = 0; kind < 4; kind++) {
         for (size_t d = 28; d <= 36; d++) { nest_case(h, kind, d, 0); nest_case(h, kind, d, 1); }
@@ -432,6 +555,10 @@ static int replay_thrift(hctx* h, const h_line* l) {
         size_t n; uint8_t* b = h_unhex(h_in(l, "b"), &n); do_rd(h, h_in(l, "k"), b, n); free(b);
     } else if (!strcmp(l->op, "th_enc")) {
         do_enc(h, h_in(l, "prog") ? h_in(l, "prog") : "");
+    } else if (!strcmp(l->op, "th_wci")) {
+        do_wci(h, h_ll(h_in(l, "bo")), h_in(l, "p") ? h_in(l, "p") : "0");
+    } else if (!strcmp(l->op, "th_woi")) {
+        do_woi(h, (int)h_ll(h_in(l, "tr")), h_in(l, "p") ? h_in(l, "p") : "0");
     } else done = 0;
     tp_free(tp); free(tp);
     return done;
